@@ -613,6 +613,50 @@ Witnesses ==
             << For2(<<DLit(<<PrintS(Var("i"))>>)>>) >>,
             << PrintS(CallE("f", Lit(1))) >>) }
 
+(* C01: directed families, enumerated exhaustively.                               *)
+(* LoopFamily: every loop form whose variable can be observed, crossed with every *)
+(* sequence of two body statements over a menu of observers and WRITERS of the     *)
+(* loop variable (directly, through a pointer, from a closure, in a tuple          *)
+(* assignment, op=), captures by closures called after the loop, deferred prints,  *)
+(* continue.  The per-iteration copy of a loop variable (Go 1.22) and the carrying *)
+(* of its value to the next iteration are decided here, not by luck of the draw.   *)
+LoopMenu ==
+    { PrintS(Var("i")), [k |-> "inc", x |-> "i", d |-> 1],
+      [k |-> "opasg", x |-> "i", op |-> "add", e |-> Lit(1)],
+      Blk(<< [k |-> "mkptr", p |-> "p1", x |-> "i"], [k |-> "pop", p |-> "p1", op |-> "add", e |-> Lit(1)] >>),
+      Blk(<< [k |-> "mkclo", c |-> "c1", par |-> FALSE,
+              body |-> << [k |-> "inc", x |-> "i", d |-> 1], [k |-> "ret", bare |-> FALSE, e |-> Var("i")] >>],
+             [k |-> "discard", e |-> [k |-> "clo", c |-> "c1", args |-> <<>>]] >>),
+      [k |-> "appclo", body |-> << [k |-> "ret", bare |-> FALSE, e |-> Var("i")] >>],
+      [k |-> "asgidx", x |-> "i", form |-> "xfirst", a |-> Bin("add", Var("i"), Lit(1)), b |-> Var("i")],
+      DPrint(Var("i")),
+      [k |-> "cont", lab |-> ""] }
+LoopKinds == {"for", "rng", "rngarr"}
+MkLoop(kd, body) ==
+    CASE kd = "for"    -> [k |-> "for", v |-> "i", n |-> 3, lab |-> "", body |-> body]
+      [] kd = "rng"    -> [k |-> "rng", v |-> "i", n |-> 3, lab |-> "", body |-> body]
+      [] kd = "rngarr" -> [k |-> "rngarr", s |-> "", v |-> "i", vv |-> "vi", lab |-> "", body |-> body]
+LoopFamily ==
+    { WProg("", <<>>, << [k |-> "mkfs"], MkLoop(kd, <<b[1], b[2]>>), [k |-> "callall"], [k |-> "printg"] >>) :
+        kd \in LoopKinds, b \in [1..2 -> LoopMenu] }
+
+(* SwitchFamily: expression switches over a tag, with the default clause at every   *)
+(* position, fallthrough out of every clause that is not last in source order, a   *)
+(* case list, and every tag value that hits the first case, the second, the second *)
+(* value of the list, or nothing.                                                   *)
+SwBody(n) == << PrintS(Lit(n)) >>
+SwitchFamily ==
+    { WProg("", <<>>,
+            << [k |-> "switch", tag |-> Bin("add", Var("g0"), Lit(tg - 1)), dpos |-> dp, dfall |-> df /\ dp < 2,
+                cases |-> << [v |-> 1, w |-> IF lst THEN 5 ELSE 1, body |-> SwBody(1), fall |-> f1],
+                             [v |-> 2, w |-> 2, body |-> SwBody(2), fall |-> f2 /\ dp = 2] >>,
+                dflt |-> SwBody(9)],
+               [k |-> "printg"] >>) :
+        tg \in {1, 2, 5, 7}, dp \in 0..2, df \in BOOLEAN, f1 \in BOOLEAN, f2 \in BOOLEAN, lst \in BOOLEAN }
+
+InitLoopFam == prog \in LoopFamily \cup SwitchFamily /\ res = Run(prog)
+SpecLoopFam == InitLoopFam /\ [][UNCHANGED vars]_vars
+
 InitFam == prog \in FamilyDefer /\ res = Run(prog)
 InitWit == prog \in Witnesses /\ res = Run(prog)
 SpecWit == InitWit /\ [][UNCHANGED vars]_vars
